@@ -112,7 +112,10 @@ def get_text_from(path, encoding=None) -> str:
                 # All of the bytes weren't decodeable, maybe the initial
                 # sequence is (as above)?
                 path.seek(position)  # Reset after the previous .read():
-                s = decode_by_char(path)
+                # A text stream decodes a whole buffer-full of bytes at a
+                # time (and fails on all of it), so go to its underlying
+                # binary stream, if it has one.
+                s = decode_by_char(getattr(path, "buffer", path))
 
         else:
             # Not a path, not an already-opened file.
